@@ -29,6 +29,11 @@ pub fn drive(ctx: &Ctx, subs: Vec<Sub>, oracles: &[Oracle], out: &mut Outcome, n
         run_cases(ctx, sub.name, sub.n, out, |idx, out| {
             let mut rng = Rng::for_case(ctx.seed, &tag, idx);
             let case = (sub.gen)(&mut rng);
+            // every sixth case is observed right after failed writes on this thread
+            if idx % 6 == 5 {
+                crate::poison::failing_writes(&mut Rng::for_case(ctx.seed, "poison", idx));
+                out.count("cases_observed_after_failed_writes_on_the_thread");
+            }
             match observe(&case) {
                 Ok(obs) => {
                     out.evaluations += 1;
@@ -588,6 +593,11 @@ pub fn run_c13(ctx: &Ctx) -> i32 {
         run_cases(ctx, sub.name, sub.n, &mut out, |idx, out| {
             let mut rng = Rng::for_case(ctx.seed, &tag, idx);
             let case = (sub.gen)(&mut rng);
+            // every sixth case is observed right after failed writes on this thread
+            if idx % 6 == 5 {
+                crate::poison::failing_writes(&mut Rng::for_case(ctx.seed, "poison", idx));
+                out.count("cases_observed_after_failed_writes_on_the_thread");
+            }
             match observe(&case) {
                 Ok(obs) => {
                     out.count("streams");
